@@ -17,7 +17,10 @@ META = {
             "every state but the last keeps an admitted message of any type in the shared history (EarlyRetained), every quorum "
             "completes under fairness; the variant whose silent symmetric-key state ignores messages is refuted; the retention "
             "table and simulated behaviours are replayed on the real state chain and a TLC-steered skewed schedule (round-one "
-            "messages arriving while the receiver is in the silent state) is signed for real. The quantifier (all exclusion sets x all "
+            "messages arriving while the receiver is in the silent state) is signed for real. The parameter derivation of "
+            "signingExecutor.sign (protocol group = stored wallet) is a spec action with invariant NoPhantomMembers (nominal-size "
+            "variant refuted) and is bound by running the real signingExecutor.sign of a node for wallets smaller than the nominal "
+            "group, observing on the wire which members the protocol expects. The quantifier (all exclusion sets x all "
             "quorums) is an enumeration, hence model checking.",
     "note": "Trusted: tss-lib's cryptography (keygen saves Ks = sorted party keys and ShareID = own key -- checked on the fixtures "
             "and on the real key generation of the thorough tier); in the quick tier key shares of a group with excluded members are "
@@ -30,7 +33,7 @@ SPEC = "specs/SigningGroup"
 MSPEC = "specs/SigningMachine"
 PKG = "pkg/tbtc"
 ACTIONS = ["DoSelectExcluded", "DoMarkExcluded", "DoBuildKeygenParty", "KeygenCompletes", "DoRegister", "NoWallet",
-           "DoChooseSigners", "DoBuildSigningParty", "SignCompletes"]
+           "DoChooseSigners", "DeriveParameters", "DoBuildSigningParty", "SignCompletes"]
 OVERLAY = {"pkg/tecdsa/dkg/zz_verif_c08_export.go": "pkg/tecdsa/dkg/c08_export.go",
            "pkg/tecdsa/signing/zz_verif_c08_export.go": "pkg/tecdsa/signing/c08_export.go"}
 
@@ -108,6 +111,13 @@ def run(ctx):
         hz = ctx.tlc(SPEC, "MC_SigningGroup", cfg="MC_HazardSign", label="MC_HazardSign", expect=("violation",))
         if hz.violated != "QuorumSigns":
             ctx.broken("MC_HazardSign: expected QuorumSigns to be violated, got %s" % hz.violated)
+    hz = ctx.tlc(SPEC, "MC_SigningGroup", cfg="MC_HazardNominal", label="MC_HazardNominal", expect=("violation",))
+    if hz.violated != "NoPhantomMembers":
+        ctx.broken("MC_HazardNominal: expected NoPhantomMembers to be violated, got %s" % hz.violated)
+    if ctx.thorough:
+        hz = ctx.tlc(SPEC, "MC_SigningGroup", cfg="MC_HazardNominalSign", label="MC_HazardNominalSign", expect=("violation",))
+        if hz.violated != "QuorumSigns":
+            ctx.broken("MC_HazardNominalSign: expected QuorumSigns to be violated, got %s" % hz.violated)
     # 2. the pipeline model satisfies every invariant (exhaustive) and emits every terminal state
     gcfg = ctx.pick("Gen_Quick", "Gen_Thorough")
     g = ctx.tlc(SPEC, "Gen_SigningGroup", cfg=gcfg, workers=1, coverage=True, label=gcfg, dump_trace=False,
@@ -180,22 +190,28 @@ def run(ctx):
     if not any(r["intruders"] for r in runs):
         ctx.broken("no real signing run with unselected signers")
     ctx.note("real signing runs: %s" % [(r["excluded"], r["signers"], r["intruders"]) for r in runs])
+    # the wallets driven through the real signingExecutor.sign: stored group smaller than the nominal size
+    ex1 = [[e] for e in range(1, 6)]
+    rnd.shuffle(ex1)
+    executor_runs = [{"n": 5, "h": 3, "quorum": 4, "excluded": e} for e in ex1[:ctx.pick(1, 2)]]
+    if ctx.thorough:
+        executor_runs.append({"n": 5, "h": 3, "quorum": 3, "excluded": sorted(rnd.sample(range(1, 6), 2))})
     inputs = {"cases.ndjson": cases, "runs.ndjson": runs, "sbehaviours.ndjson": sbeh, "retention.ndjson": retention,
-              "skewed.ndjson": skewed}
-    tests = "^TestVerif_C08_(Pipeline|Machine|Sign|Skewed)$"
+              "skewed.ndjson": skewed, "executor.ndjson": executor_runs}
+    tests = "^TestVerif_C08_(Pipeline|Machine|Sign|Skewed|Executor)$"
     if ctx.thorough:
         excl = rnd.choice([[1], [2], [3], [4], [5]])
         ops = [m for m in range(1, 6) if m not in excl]
         # final indices 1..4; quorums chosen so that every final index signs at least once
         sets = [[1, 2, 3], [2, 3, 4], [1, 3, 4]]
         inputs["keygenruns.ndjson"] = [{"n": 5, "h": 3, "quorum": 4, "excluded": excl, "operating": ops, "signerSets": sets}]
-        tests = "^TestVerif_C08_(Pipeline|Machine|Sign|Skewed|KeygenSign)$"
-    go = _gotest(ctx, ["pkg/tecdsa/signing", "pkg/tecdsa/dkg", "pkg/tbtc", "pkg/protocol/state"], PKG, tests, ["c08_test.go", "c08_machine_test.go"], inputs=inputs, extra_overlay=OVERLAY, label="c08",
+        tests = "^TestVerif_C08_(Pipeline|Machine|Sign|Skewed|Executor|KeygenSign)$"
+    go = _gotest(ctx, ["pkg/tecdsa/signing", "pkg/tecdsa/dkg", "pkg/tbtc", "pkg/protocol/state"], PKG, tests, ["c08_test.go", "c08_machine_test.go", "c08_executor_test.go"], inputs=inputs, extra_overlay=OVERLAY, label="c08",
                     env={"VERIF_SIGN_BUDGET_S": ctx.pick(420, 900), "VERIF_KEYGEN_BUDGET_S": 1500},
                     timeout=ctx.pick(1500, 5400))
     if go is not None:
         ctx.absorb(go)
-    want = {"pipeline", "machine", "sign", "skewed"} | ({"keygensign"} if ctx.thorough else set())
+    want = {"pipeline", "machine", "sign", "skewed", "executor"} | ({"keygensign"} if ctx.thorough else set())
     if go is not None and set(go.reports) != want and not ctx.violations:
         ctx.broken("harness reports missing: %s" % sorted(go.reports))
     if not ctx.violations:
@@ -212,6 +228,9 @@ def run(ctx):
         sk = (h.get("skewed", {}).get("counters") or {})
         if sk.get("real_signings", 0) < len(skewed) or sk.get("silent_window_deliveries", 0) < 2:
             ctx.broken("the skewed real signing run did not hand the round-one messages over in the silent state: %s" % sk)
+        xc = (h.get("executor", {}).get("counters") or {})
+        if xc.get("real_executor_signings", 0) < len(executor_runs) or not xc.get("attempts_checked") or not xc.get("ephemeral_messages"):
+            ctx.broken("the real signingExecutor.sign runs did not complete / were not observed: %s" % xc)
         if ctx.thorough and (h.get("keygensign", {}).get("counters") or {}).get("real_keygens", 0) < 1:
             ctx.broken("the real key generation did not run")
     return ctx.finish(
